@@ -203,8 +203,36 @@ def numerics(ctx):
                 if not (times[0] == 0 and np.all(np.diff(times) * fwd > 0)):
                     ctx.violation("stm-times:%+d" % fwd, "time stamps of the STM trajectory are not signed consistently", {"times": times[:5].tolist(), "forward": fwd})
                     return
-    if ctx.thorough():
+    if not ctx.violations:
+        orbit_object(ctx)
+    if ctx.thorough() and not ctx.violations:
         periodic(ctx)
+
+
+def orbit_object(ctx):
+    """the matrix a user actually reads -- orbit.monodromy -- is the STM of the orbit's CURRENT initial state over its CURRENT period
+    (services/orbits.py caches it; histories: read, change period, read; read, change initial state via a new orbit, read)."""
+    from hiten import System
+    from hiten.system.orbits.base import GenericOrbit
+    from hiten.algorithms.dynamics import rtbp
+    rng = ctx.rng
+    system = System.from_mu(0.0121505856)
+    L4 = system.get_libration_point(4)
+    x0 = [0.5 + 0.05 * rng.uniform(-1, 1), 0.8, 0.3 * rng.uniform(0.2, 1), 0.1, -0.1, 0.1]
+    orbit = GenericOrbit(L4, initial_state=x0)
+    hist = []
+    for T in (round(rng.uniform(0.6, 1.1), 3), round(rng.uniform(1.2, 1.6), 3), round(rng.uniform(0.6, 1.1), 3)):
+        orbit.period = T
+        hist.append(T)
+        M = np.asarray(orbit.monodromy, dtype=float)
+        _, _, Phi, _ = rtbp._compute_stm(system.var_dynsys, np.asarray(orbit.initial_state, float), float(orbit.period))
+        err = float(np.abs(M - Phi).max() / (1 + np.abs(Phi).max()))
+        ctx.case(("orbit-monodromy", tuple(hist)), nontrivial=len(hist) > 1, kind="orbit-object")
+        if not err <= 1e-9:
+            ctx.violation("orbit-monodromy-stale" if len(hist) > 1 else "orbit-monodromy",
+                          "orbit.monodromy is not the STM over the orbit's current period after the period history %r (rel. %g)" % (hist, err),
+                          {"initial_state": x0, "period_history": hist, "monodromy": M.tolist(), "stm_current_period": Phi.tolist(), "rel_err": err})
+            return
 
 
 def periodic(ctx):
